@@ -190,14 +190,17 @@ Qed.
    65535), but `headerSize + diff` wraps in uint16 and blockIterator.setIdx panics on that block;
    65000-byte user keys (65008) are inside wf_key *)
 Definition long_key (n : N) : bytes := repeat 97 (N.to_nat n).
+(* None = Builder assertion fails; Some None = built, but setIdx 0 panics; Some (Some true) = read back *)
+Definition key_limit_check (n : N) : option (option bool) :=
+  match add_helper bb_empty (long_key n) (mkVS 0 0 0 []) with
+  | None => None
+  | Some b =>
+      Some (match set_idx (set_block (mkBlk (bb_data b) (bb_offs b))) 0 with
+            | None => None
+            | Some it => Some (bytes_eqb (bi_key it) (long_key n))
+            end)
+  end.
 Example C18_key_limit_is_tight :
-  (exists b, add_helper bb_empty (long_key 65532) (mkVS 0 0 0 []) = Some b /\
-             set_idx (set_block (mkBlk (bb_data b) (bb_offs b))) 0 = None) /\
-  (exists b it, add_helper bb_empty (long_key 65531) (mkVS 0 0 0 []) = Some b /\
-                set_idx (set_block (mkBlk (bb_data b) (bb_offs b))) 0 = Some it /\
-                bytes_eqb (bi_key it) (long_key 65531) = true).
-Proof.
-  split.
-  - eexists. split; [vm_compute; reflexivity|]. vm_compute. reflexivity.
-  - eexists _, _. split; [vm_compute; reflexivity|]. split; vm_compute; reflexivity.
-Qed.
+  key_limit_check 65531 = Some (Some true) /\ key_limit_check 65532 = Some None /\
+  key_limit_check 65535 = Some None /\ key_limit_check 65536 = None.
+Proof. vm_compute. repeat split. Qed.
